@@ -33,7 +33,8 @@ class _Payload(ErrorableProtocol, Protocol):
 class ResponseHandler(BaseProtocol, DataQueue[tuple[RawResponseMessage, StreamReader]]):
     """Helper class to adapt between Protocol and StreamReader."""
 
-    # Set by the connector while the connection waits in its pool.
+    # Set while no request is on the wire: by the connector while the connection
+    # waits in its pool, by the request until its head is about to be written.
     idle = False
 
     def __init__(self, loop: asyncio.AbstractEventLoop) -> None:
